@@ -42,6 +42,7 @@ mod keyupd;
 mod txready;
 
 pub use snapshot::{PathSnap, Snapshot, SpaceSnap, StreamsSnap};
+pub use snapshot::OutPkt;
 pub use inject::{FrameProbe, Inject, StreamProbe};
 pub use txlog::{TxLog, TxPkt};
 pub use multi::{ConnCidView, EndpointView, MetaView};
